@@ -13,8 +13,13 @@ ca["distinct_nontrivial"] += cb["distinct_nontrivial"]   # distinct = (plan shap
 ca["rule"] += "; both TLS back ends (native-tls/OpenSSL and rustls) are exercised by two builds of the same check, distinct counts are per (plan shape or matrix cell, back end)"
 ca["exhaustive"] = bool(ca.get("exhaustive")) and bool(cb.get("exhaustive"))
 ca["samples"] = (ca.get("samples") or []) + (cb.get("samples") or [])
-for k in ("kernel_events", "connections_total", "simulated_threads_total", "simulated_seconds"):
+for k in ("kernel_events", "connections_total", "simulated_threads_total", "simulated_seconds", "schedule_decisions",
+          "schedule_nondefault_choices", "distinct_plan_shapes_x_schedules"):
     ca[k] = ca.get(k, 0) + cb.get(k, 0)
+for k in ("faults_fired", "probes"):
+    for name, n in (cb.get(k) or {}).items():
+        ca.setdefault(k, {})[name] = ca.get(k, {}).get(name, 0) + n
+ca["runs_per_hour"] = int(ca["evaluations"] / max(a["wall_s"] + b["wall_s"], 1e-9) * 3600)
 a["wall_s"] += b["wall_s"]
 a["violations"] = a.get("violations", 0) + b.get("violations", 0)
 json.dump(a, open(a_p, "w"), indent=1)
